@@ -1,8 +1,9 @@
 (* Properties/Properties_C03r.v — property C03, the Four-Russians base case _mzd_ple_russian /
    _mzd_pluq_russian (m4ri/ple_russian.c:381-629, ple_russian_template.h).  Statements only.
 
-   MODEL (Alg/PLERussian.v, executable, compared bit for bit with the library: 249 of 249 structured
-   probe inputs, k in 2..8 and the automatic k, shapes to 200 x 300 and 120 x 1100):
+   MODEL (Alg/PLERussian.v, executable, extracted as x_tb_ple_russian / x_tb_pluq_russian and compared bit for bit
+   — A', P, Q, rank — with the library on every run of the C03 check (Tier B family "ple-russian" of
+   tools/props/tierb.py: k in 2..8 and the automatic k computed from the build's L2 size as ple_russian.c:393 does):
      ple_russian k A P0 Q0 = _mzd_ple_russian(A, P, Q, k), k >= 1; pluq_russian = _mzd_pluq_russian;
      extractable entry points: [ple_russian_run k A], [pluq_russian_run k A] (identity P0, Q0).
 
